@@ -96,6 +96,18 @@ func allThreadsParked() bool {
 // hasChildProcesses: some process has this one as its parent.
 func hasChildProcesses() bool {
 	self := os.Getpid()
+	// cheap where the kernel lists children per thread (the full /proc scan below costs CPU that the
+	// monitor itself would then see on a loaded machine)
+	if _, err := os.Stat(fmt.Sprintf("/proc/self/task/%d/children", self)); err == nil {
+		tasks, _ := os.ReadDir("/proc/self/task")
+		for _, t := range tasks {
+			// a thread that has gone meanwhile has no children
+			if b, rerr := os.ReadFile("/proc/self/task/" + t.Name() + "/children"); rerr == nil && len(strings.Fields(string(b))) > 0 {
+				return true
+			}
+		}
+		return false
+	}
 	ents, _ := os.ReadDir("/proc")
 	for _, e := range ents {
 		n := e.Name()
@@ -115,6 +127,36 @@ func hasChildProcesses() bool {
 		}
 	}
 	return false
+}
+
+var durationInState = regexp.MustCompile(`, \d+ minutes`)
+
+// goroutineDump returns the stacks of all goroutines but the calling one (durations removed) and
+// whether all of them are blocked on something only another goroutine can release.
+func goroutineDump() (string, bool) {
+	buf := make([]byte, 1<<20)
+	buf = buf[:runtime.Stack(buf, true)]
+	blocks := strings.Split(strings.TrimSpace(string(buf)), "\n\n")
+	if len(blocks) < 2 {
+		return "", false
+	}
+	quiet := true
+	var kept []string
+	for _, b := range blocks[1:] { // the first block is the caller
+		head := strings.SplitN(b, "\n", 2)[0]
+		i, j := strings.IndexByte(head, '['), strings.LastIndexByte(head, ']')
+		if i < 0 || j < i {
+			return "", false
+		}
+		state := head[i+1 : j]
+		for _, active := range []string{"running", "runnable", "syscall", "IO wait", "sleep", "copystack", "preempted", "timer goroutine", "trace reader", "debug call", "dumping heap"} {
+			if strings.HasPrefix(state, active) {
+				quiet = false
+			}
+		}
+		kept = append(kept, durationInState.ReplaceAllString(b, ""))
+	}
+	return strings.Join(kept, "\n\n"), quiet
 }
 
 // watch runs f under the crash and hang monitors. It returns false when the
@@ -139,6 +181,8 @@ func watch(c *core.Ctx, id, what string, detail any, f func()) bool {
 	var parkedSince time.Time
 	parkedCPU, parkedTicks, allTicks := 0.0, 0, 0
 	lastCPU := cpu0
+	var lastDump time.Time
+	prevDump, sameDumps := "", 0
 	for {
 		select {
 		case <-done:
@@ -174,11 +218,31 @@ func watch(c *core.Ctx, id, what string, detail any, f func()) bool {
 					parkedTicks++
 				}
 				if time.Since(parkedSince) > 10*time.Second {
-					if parkedTicks*10 >= allTicks*8 && cpu-parkedCPU < 1.5 {
+					if parkedTicks*10 >= allTicks*8 && cpu-parkedCPU < 3 {
 						c.Violation(fmt.Sprintf("%s does not return: every thread of the process is parked and no CPU is used (dead-locked goroutines)", what), id, map[string]any{"threads": threadStates(), "parked_samples": fmt.Sprintf("%d of %d in 10 s", parkedTicks, allTicks), "input": detail})
 						return false
 					}
 					parkedSince = time.Time{}
+				}
+			}
+			// fourth witness, independent of the machine's load: the goroutines themselves. Ten dumps
+			// one second apart that are identical (ids, states, stacks) and in which no goroutine but
+			// this monitor is running, runnable, in a system call, waiting for I/O or sleeping: nothing
+			// can wake anything up any more.
+			if time.Since(t0) > 5*time.Second && time.Since(lastDump) >= time.Second {
+				lastDump = time.Now()
+				d, quiet := goroutineDump()
+				if quiet && (sameDumps == 0 || d == prevDump) {
+					sameDumps++
+				} else if quiet {
+					sameDumps = 1
+				} else {
+					sameDumps = 0
+				}
+				prevDump = d
+				if sameDumps >= 10 {
+					c.Violation(fmt.Sprintf("%s does not return: every goroutine is blocked on another one and nothing changes (dead-locked goroutines)", what), id, map[string]any{"goroutines": d, "identical_dumps": sameDumps, "input": detail})
+					return false
 				}
 			}
 			lastCPU = cpu
@@ -1109,7 +1173,7 @@ func init() {
 		ID:    "C15",
 		Level: "exploration",
 		Rule: "(1) byte strings offered as metadata files: random bytes, random JSON-alphabet strings and random concatenations of metadata fragments of 0-4 KiB; structure-aware mutations (null, other type, delete, insert, rename, replace at every JSON path, also inside DSSE payloads incl. URL-safe and unpadded base64; hostile values: huge/negative/float/exponent numbers, 70 KB strings, invalid UTF-8, NUL, nested empties; BOM, trailing bytes, truncation, duplicated member, bit flips) of valid links and layouts in both wrappers; 10000-deep nesting, 1 MiB strings, 10000 signatures - all through LoadMetadata and Metablock.Load, and whatever loads goes through ValidateMetablock, GetSignableRepresentation, Sigs, GetSignatureForKeyID, GetCertificate, VerifySignature with 3 key types, Sign with 2 key types; (2) a catalogue of degenerate but correctly signed layouts (empty / one-token / odd rules in steps and inspections, thresholds 0, negative, 2^62, with present / missing / unverifiable links, no steps, duplicated and hostile names, keys whose type contradicts their material, truncated and garbage PEM, Ed25519 halves of 0..128 hex characters, garbage certificates and CAs, odd pubkeys, huge lists, odd inspection commands) x 2 wrappers x 2 entry points through Sign, InTotoVerify*, LoadMetadata, ValidateMetablock (complete enumeration of the catalogue: fault-enumeration style); (3) hostile link directories under a sane layout (garbage, empty, envelopes with the right payload type and an undecodable / incomplete payload, forty unloadable files named like links of one step, directory / dangling symlink / symlink loop / named pipe / symlink to /dev/zero named like a link, unreadable file, odd and 20000 signatures, garbage certificates, null collections, odd hash objects, sublayouts: with directory, directory symlinked to its parent, two self-referencing steps, odd type marker, garbage content, keys section contradicting the functionary's key; thorough: 64 MiB file); (4) malformed key objects: RSA / ECDSA P-256 / P-384 / Ed25519 keys with every combination of {own public, own private, empty, garbage, certificate, PEM with garbage body, PEM blocks that hold no key (EC PARAMETERS, CRL), the halves of each other key type} in the public and private field, used by Sign and VerifySignature of both wrappers (a genuine signature present under the id) and as functionary key of a layout that has a link under its id; (5) files whose signature list names the key that is then used for signing two or three times (9 list shapes x 2 wrappers) through the whole post-load API; (6) thorough only: coverage-guided native fuzzing (go test -fuzz, bounded by execution count) of three targets. " +
-			"Monitors: recover() + journal attribution of process-fatal errors; hang = >20 CPU-s on a small input (spinning) or a thread of ours blocked in open/read on a pipe with no CPU progress over 3 samples (witness from /proc), else inconclusive. non-trivial = input differs from every valid seed; distinct = hash of the input / catalogue entry",
+			"Monitors: recover() + journal attribution of process-fatal errors; hang = >20 CPU-s on a small input (spinning) or a thread of ours blocked in open/read on a pipe with no CPU progress over 3 samples (witness from /proc), or every thread parked in futex/epoll/nanosleep for 10 s without CPU use and without a child process, or ten identical goroutine dumps one second apart in which no goroutine but the monitor is running, runnable, in a system call, waiting for I/O or sleeping (dead-lock; independent of the machine's load), else inconclusive. non-trivial = input differs from every valid seed; distinct = hash of the input / catalogue entry",
 		Assumptions: []string{"zero-value Go objects that no loader can produce (an Envelope without inner envelope, nil Metadata) are API misuse, not metadata, and are not offered", "a call that is slow but makes progress is inconclusive after 120 s"},
 		Workers:     func(string) int { return 16 },
 		Floors: func(string) map[string]int64 {
